@@ -17,6 +17,11 @@ K/JoinWG: the goroutines emitted by plugin/join genChan (chan of chan) and genSl
     }()
     return out
 
+Since F103 the slice form runs the loop (listening check, `wait.Add(1)`, `go`) in the CALLER, before the function
+returns, and starts one more goroutine for `wait.Wait(); close(out)`: the same transitions, performed by other
+goroutines (the replay maps `main` to the dispatcher's loop and `join#1` to wait / close for that form); the LTS —
+which lets the consumer and the producers interleave freely with the loop — over-approximates it.
+
 The two forms differ only in how the spawner learns the next channel: in the chan-of-chan form it
 receives it from the outer channel (capacity `ocap`, an environment producer sends the `n` channels in
 order and closes); in the slice form the loop header is local.  The outer channel is FIFO and carries
